@@ -5,8 +5,9 @@ CONSTANTS
  MaxK = 7
  Margin = 4
  Variants <- V_canon
- NaiveMaxP = 13
+ NaiveMaxP = 0
  Mode = "needs"
  CheckArith = FALSE
+ SortedBases = TRUE
 INVARIANTS Emit
 CHECK_DEADLOCK FALSE
